@@ -24,9 +24,10 @@ CHECKS = {
  'C12': dict(
     text='The presentation of a grammar (rule, edge and node insertion order, explicit vs implicit ids, consistent renaming of labels, a transposition of domain values applied to every matching factor axis) is a vector of solver variables, i.e. a symbolic schedule: '
          'it fixes dict/set iteration order inside the solvers. Every presentation inside the bound is explored; both presentations are evaluated by sum_product over the same symbolic weights and the solver decides cell-wise equality of the start tensors modulo the value '
-         'permutation, and of the gradients for Real non-recursive grammars.',
+         'permutation, of the gradients for Real non-recursive grammars and for recursive ones with concrete recursion weights, and of the weight of the viterbi derivation (independent evaluator over derive()) for every start assignment.',
     note='Bounds: grammars with <=3 (sampled permutations beyond) rules and <=12 weights from the feature set, a seeded two-level sample and 5 recursive shapes (Bool/Viterbi exact with tol=0, Real via method linear with fewer presentation dimensions); '
-         'quick: edge permutations of the first rule, node reversal of the first two rules, renaming tied to explicit ids. Not decided here: hash-order effects of str ids (PYTHONHASHSEED fixed), equality of viterbi derivation weights (follows from C04 per presentation).',
+         'quick: edge permutations of the first rule, node reversal of the first two rules, renaming tied to explicit ids. The renaming reverses the lexicographic order of all names and mixes cases. Added shapes: rules with 2-3 internal nodes (several arg-max pointers) for the viterbi clause (finite weights, grammars in which every start assignment has a derivation, non-recursive: F14), '
+         'SCCs of 3 and 4 nonterminals with chords (also through method linear in Bool/Viterbi: pivot order of multi_solve), recursive gradients across up to 10 (quick) / 24 rule orders. Not decided here: hash-order effects of str ids (PYTHONHASHSEED fixed).',
     technique='symbolic schedules (presentation choices as solver variables) + SMT equivalence (z3)', design='5/C12'),
  'C11': dict(
     text='The obligations of C01/C03/C07/C06/C13 are re-decided under the variations the property names: (a) gradients with j_precompute=True against the same forward-mode derivatives, (b) the same harnesses in a child interpreter started with -OO (-O and -OO in thorough), '
@@ -39,7 +40,7 @@ CHECKS = {
     text='Node and edge ids (explicit ids from a pool built around string ordering, or implicit ids produced by a stub of id() that returns solver-chosen distinct ints), attachments and external lists are solver variables; every choice is explored and the round trip '
          'hrg_to_json / json.dumps / json_to_hrg must reproduce the grammar up to renaming of implicit ids, verbatim on a second round trip when all ids are explicit; out-of-range (incl. negative) node numbers must raise ValueError. For patterned weight specifications the solver '
          'decides, per cell and for all physical entries, that json_to_weights denotes the tensor the specification describes (independent evaluator). Whole-FGG round trips with concrete sentinel weights are an enumeration sub-check, labelled as such.',
-    note='Bounds: one rule with 2 (quick) / 3 nodes and 2 edges; id pool {a,b,"10","9",A,""} + implicit ids from {9,10,100} (thorough 5 values); node numbers -3..3; 16 weight specifications (rank<=2, expand, products, sums, shared axes, defaults); '
+    note='Bounds: one rule with 2 (quick) / 3 nodes and 2 edges; id pool {a,b,"10","9",A,""} + implicit ids from {9,10,100} (thorough 5 values); node numbers -3..3; 19 weight specifications (rank<=3, expand, products, sums, shared axes, defaults, slices that are themselves patterned), each also written back with weights_to_json under three defaults; '
          'FGG round trip on the feature set + 40 grammars with concrete weights incl. inf. CrossHair contracts over symbolic strings were not built; ids come from the pool.',
     technique='bounded symbolic execution with an id() stub + SMT denotation equality (z3)', design='5/C14'),
  'C20': dict(
@@ -51,8 +52,9 @@ CHECKS = {
  'C17': dict(
     text='The two grammars are chosen by solver variables from a universe of rule skeletons over shared node/edge ids and of nonterminal names built to provoke pairing clashes; conjoin_hrgs must produce exactly one rule per conjoinable pair (conjoinability by the '
          'definition), each carrying nodes, externals, the paired nonterminal edges and both sets of terminal edges, under an injective naming of pairs disjoint from existing labels, with start = pair of starts; terminal conflicts raise ValueError; arguments untouched. '
-         'Rule-level exactness plus injective naming gives the one-to-one correspondence of derivations by induction on depth.',
-    note='Bounds: <=2 rules per grammar, 4 (quick) / 5 (thorough) skeletons, 3+3 nonterminal names, 5 label variants. Derivation sets are not enumerated; the correspondence of derivations is argued from the rule-level result. '
+         'The correspondence of derivations is decided directly up to depth 3: the multiset of complete derivation trees of the conjunction (decorated with nodes, externals and terminal edges) must equal the multiset of paired derivations of the arguments built from the definition.',
+    note='Bounds: <=2 rules per grammar, 8 (quick) / 9 (thorough) skeletons incl. arity-2 nonterminal edges attached in either order and external nodes listed in either order, 3+3 arity-1 and 1+1 arity-2 nonterminal names, 7 label variants (all of them on single-rule grammars, plain [+ reversed edge insertion] on two-rule grammars); '
+         'second rules are sampled (every 14th / 13th candidate in quick, 6th / 8th in thorough) while first rules are exhaustive; derivations up to depth 3. '
          'Symbolic-string exploration of unique_label_name / nonterminal_pairs (CrossHair) was not built.',
     technique='bounded symbolic execution (symbolic grammar structure) + definitional oracle', design='5/C17'),
  'C15': dict(
@@ -66,7 +68,7 @@ CHECKS = {
     text='The sequence of public API calls is a vector of solver variables; the symbolic executor explores every sequence up to the length bound over a small universe designed around name clashes, id re-use and ill-typed arguments, pruning at states already '
          'explored at least as deeply. After every call the representation invariant is checked, a call that raised must leave every public observation unchanged, and copies must be equal, observation-equal (label tables, domains, factors) and independent. '
          'Right level: the property quantifies over call histories; bounded exhaustive exploration with state merging covers every short history, which is where validation-order bugs live.',
-    note='Bounds: sequences of <=3 (quick) / <=4 (thorough) calls on Graph and one more on HRG/FGG; universe: labels L,M; node ids a,(b),implicit; edge labels f:(L), f:(M), g:(L,L), X:(L), X:(M), c:(); <=3 nodes, <=2 edges, <=3 rules; 7 rule shapes. '
+    note='Bounds: sequences of <=3 (quick) / <=4 (thorough) calls on Graph and one more on HRG/FGG; universe: labels L,M; node ids a,(b),implicit; edge labels f:(L), f:(M), g:(L,L), X:(L), X:(M), c:() and, for rules only, Y:(L), Y:(M) (a nonterminal name new to the grammar; X is always the start symbol); <=3 nodes, <=2 edges, <=3 rules; 10 rule shapes. '
          'Not covered: remove/new convenience wrappers beyond those listed, longer histories, == transitivity on triples.',
     technique='bounded symbolic execution over API call sequences (z3 path forking), invariant + frame checks', design='5/C16'),
  'C05': dict(
@@ -80,7 +82,8 @@ CHECKS = {
     text='The adjacency matrix of the input graph is a vector of solver variables and the symbolic executor partitions the whole space of graphs up to the vertex bound; on every path the real tree_decomposition / min_fill / quickbb / minor_min_width code runs '
          'and the result is checked for validity (tree, vertex and edge cover, running intersection); optimality of acb and quickbb and the bracket lower <= tw <= upper are judged against an independent SMT treewidth oracle (ordering-based encoding). '
          'Right level: small graphs with isolated vertices / several components are exactly the rare inputs, and exhaustive coverage up to n=5/6 is affordable.',
-    note='Bounds: all simple graphs on <=5 (quick) / <=6 (thorough) labelled vertices x 3 methods. Larger graphs (the benchmark .gr files) are outside the claim.',
+    note='Bounds: all simple graphs on <=5 (quick) / <=6 (thorough) labelled vertices x 3 methods; on such graphs min_fill is always optimal, so the branch-and-bound of quickbb never runs past its start -- therefore additionally the neighbourhoods of 16 cores on 7-9 vertices on which min_fill is NOT optimal '
+         '(found by an offline search, gen/hard_graphs.json): 4 (quick) / 8 (thorough) edge slots flipped symbolically x 3 / 6 vertex insertion orders chosen symbolically (dict order decides ties and the order reductions meet the vertices). Larger graphs (the benchmark .gr files) are outside the claim.',
     technique='bounded symbolic execution (z3 path forking) + SMT treewidth oracle', design='5/C10'),
  'C03': dict(
     text='sum_product followed by back-propagation is executed on the z3-valued tensor model (autograd.Function modelled by per-storage-cell cotangent accumulation; SumProduct.backward, J/J_log, multi_solve(transpose), multi_mv, project run as is) '
@@ -88,7 +91,9 @@ CHECKS = {
          'rational functions of all weights; gradcheck samples one point.',
     note='Bounds: non-recursive grammars of the C01 families with <=10 weights (shared factors, unreachable factors, duplicate externals, edgeless nodes), Real and Log, three method names. Regimes: positive weights, Real also one zero weight. '
          'Recursive SCCs: SumProduct.backward is driven directly on a symbolic fixed point z = G(z,w) (assumed together with spectral radius < 1) for SCCs of one or two scalar nonterminals (linear, quadratic, mutual, non-linear mutual) and decided against the implicit-function identity '
-         '(dG/dw)^T lambda with lambda = (dG/dz)^T lambda + c; larger recursive systems and Log-semiring recursion are outside the claim.',
+         '(dG/dw)^T lambda with lambda = (dG/dz)^T lambda + c, in the Real and in the Log semiring (chain rule through exp/log), incl. SCCs containing a structurally dead nonterminal (dead rule first / middle / last). '
+         'Tensor-valued recursion (vector- and matrix-valued nonterminals, two rules feeding one Jacobian block, mutual vector recursion, a 3-nonterminal SCC with a chord in both insertion orders) runs through the public API (forward linear/newton + backward) with concrete dyadic recursion weights '
+         'and symbolic base weights and cotangents, against the least fixed point and its derivatives computed exactly over the rationals (oracles/lfp_linear.py); symbolic recursion weights of tensor-valued SCCs are outside the claim (non-linear arithmetic beyond the solver budget).',
     technique='SMT equivalence with forward-mode derivatives of the definitional sum-product (z3 NRA)', design='5/C03'),
  'C04': dict(
     text='viterbi() is executed on the z3-valued tensor model with symbolic log-weights; arg-max back-pointers are symbolic integers, so every feasible optimum/tie becomes its own path. Per path the derivation is checked for well-formedness and the '
@@ -103,7 +108,8 @@ CHECKS = {
          'for Real/Log iterative methods every path returning without a warning lies below every pre-fixed point, met its stopping criterion (observed) and (fixed-point) is stationary within tol. Budget N+1 in idempotent semirings must not be '
          'exhausted (unwinding assertion). linear on a non-linear grammar raises ValueError.',
     note='Bounds: 9 recursive shapes (scalar linear/quadratic, self-loops, two-cycle, HMM-shaped arity-1 over a size-2 domain, two SCCs, recursive start, non-linear mutual recursion), <=4 unknown cells, <=8 weights; '
-         'kmax in {0,1,N+1} (Bool/Viterbi), {0,1,2} (Real iterative, smaller for larger shapes); tol 1e-5. Outside: the limit statement "error vanishes as tol -> 0"; Viterbi with positive cycles or +inf; newton on non-linear SCCs uses the linalg.solve contract stub.',
+         'kmax in {0,1,N+1} (Bool/Viterbi), {0,1,2} (Real iterative, smaller for larger shapes); tol 1e-5; plus SCCs of 3 and 4 scalar nonterminals with chords (fill-in during block elimination), and two grammars whose base-case / step factor is handed over as a diagonal PatternedTensor '
+         '(the sparsity pattern of the iterate grows between iterations; Bool over a 4-value domain, Viterbi over 2 values). Outside: the limit statement "error vanishes as tol -> 0"; Viterbi with positive cycles or +inf; newton on non-linear SCCs uses the linalg.solve contract stub.',
     technique='path-forking symbolic execution + Knaster-Tarski SMT queries (z3)', design='5/C02'),
  'C09': dict(
     text='Semiring.solve, PatternedTensor.solve, multi_solve (both transpose flags) and multi_mv run on the z3-valued tensor model; the returned x is decided to be the least solution by two SMT queries per '
@@ -111,7 +117,9 @@ CHECKS = {
          'infinite element. Arguments are compared cell-wise before/after. Right level: "least solution for all entries" is a quantified statement over values; no iteration or limit is needed.',
     note='Bounds: dense order n<=2 (Log: n=1; Viterbi/Bool n<=3 thorough), right-hand sides with m<=2 columns; PatternedTensor.solve on well-typed pattern pairs over index types of numel 2 (thorough 3) with <=6 (Log 4) physical entries; '
          'multi_solve/multi_mv over every present/absent combination of 4 A-blocks x 2 b-blocks on two keys, block shapes (2,),() for Viterbi/Bool (flattened order 3) and scalar blocks for Real/Log (order 2; Log <=2 A-blocks). '
-         'Regimes: T for Viterbi/Bool; for Real/Log every entry class profile zero/positive/infinite (all 3^k for k<=6, seeded sample beyond) with y tagged; comparisons fork the path. torch.linalg.solve is a contract stub.',
+         'Regimes: T for Viterbi/Bool; for Real/Log every entry class profile zero/positive/infinite (all 3^k for k<=6, seeded sample beyond) with y tagged; comparisons fork the path. torch.linalg.solve is a contract stub. '
+         'Real semiring additionally with 13 concrete dyadic system matrices of order 2-4 (spectral radius <1, =1, >1, infinite and zero entries, cycles, triangular) and a fully tagged symbolic right-hand side (vector or 2 columns), as Semiring.solve and cut into blocks over two keys '
+         '(one- and two-axis blocks, both transpose flags, present/absent b blocks): the linalg shortcut, its acceptance test and the Gauss-Jordan fallback all run, and leastness is linear arithmetic.',
     technique='Knaster-Tarski least-fixed-point SMT queries (z3) over symbolic execution of the real solvers', design='5/C09'),
  'C01': dict(
     text='sum_products / sum_product are executed end to end (SCC ordering, per-SCC method downgrade, F, sum_product_edges, patterned einsum, real torch_semiring_einsum) on the z3-valued tensor model with every factor '
